@@ -11,6 +11,13 @@ void harness(void) {
   __CPROVER_assume(outblocks <= VERIF_MAX_OBJ / 64);
   uint8_t *out = outblocks ? malloc(64 * outblocks) : NULL;
   __CPROVER_assume(outblocks == 0 || out != NULL);
+#ifdef VERIF_FN
+  /* proof device for the loop invariant of the fallback loop (verif/cbmc/loop_contracts.txt): what the
+   * witness byte must become, computed from the arguments; the contract's ensures states it with the UF */
+  if (outblocks && VW_IN(out, 64 * outblocks))
+    verif_expect_byte = VBYTE(VERIF_UF_XOF(a ? o.input_cv : other_cv, b ? o.block : other_block, block_len,
+                                           counter + VW_IDX(out) / 64, flags), VW_IDX(out) % 64);
+#endif
   blake3_xof_many(a ? o.input_cv : other_cv, b ? o.block : other_block, block_len, counter, flags,
                   out, outblocks);
   VERIF_REACHABLE();
